@@ -11,6 +11,7 @@
 #include <cstdint>
 #include <map>
 #include <string>
+#include <type_traits>
 #include <utility>
 #include <vector>
 
@@ -134,6 +135,29 @@ struct TC {
         return Tag;
     }
 };
+
+// copy-only with a DEFAULTED (trivial) copy assignment next to a user-provided copy constructor and
+// destructor: is_trivially_copy_assignable but neither trivially copy-constructible nor trivially
+// destructible.  Assignments of this flavour cannot be observed (no event); the value is still copied.
+template <int Tag>
+struct TT {
+    static constexpr bool copyable = true;
+    static constexpr bool movable  = false;
+    static constexpr int tag       = Tag;
+    int v;
+    TT() : v{0} { log(CV, this, nullptr, 0, Tag); }
+    explicit TT(int x) noexcept : v{x} { log(CV, this, nullptr, x, Tag); }
+    TT(TT const& o) noexcept : v{o.v} { log(CC, this, &o, v, Tag); }
+    auto operator=(TT const& o) noexcept -> TT& = default;
+    ~TT() { log(DT, this, nullptr, v, Tag); }
+    auto operator()(int* peek) const -> int
+    {
+        if (peek != nullptr) { *peek = v; } else { log(US, this, nullptr, v, Tag); }
+        return Tag;
+    }
+};
+static_assert(std::is_trivially_copy_assignable_v<TT<0>> && !std::is_trivially_copy_constructible_v<TT<0>>
+              && !std::is_trivially_destructible_v<TT<0>>);
 
 // ---- locations -------------------------------------------------------------------------------
 // persistent slot: (c, i) with c >= 0; temporary: c = -1, i = address
